@@ -24,6 +24,7 @@ EXPLANATION = (
     "methods and the ignore list. Agreement with Signature.bind over ALL signatures and call shapes is an enumeration "
     "argument that this family does not make; any other shape of filter_args is reported undecidable, never a violation."
     " The caller's values are rendered (repr / formatting) only on the raising paths of filter_args."
+    ' Parameter information comes from inspect.signature only (no co_varnames/argspec).'
 )
 ASSUMPTIONS = [
     "reference fact: the five members of inspect._ParameterKind of the running interpreter",
@@ -631,6 +632,14 @@ def signature_fresh(ctx):
                 ok = bool(rets) and all(isinstance(r.value, ast.Call) and call_name(r.value) == "inspect.signature" and dotted(r.value.args[0]) == p0 for r in rets) and dotted(v.args[0]) == "func"
         ctx.check(ok, a, "the signature is inspect.signature(func), computed for this function object at call time",
                   "the signature comes from %s: a remembered signature of another function object (same code, other defaults/closure) can be used" % unparse(v))
+    # every piece of parameter information comes from inspect.signature - the one source that agrees with how Python binds
+    # a call (it follows __wrapped__ and __signature__): names read off the code object (co_varnames, co_argcount) or the
+    # legacy getargspec family describe the wrapper of a decorated function, not the callable that is bound
+    BYPASS = ("co_varnames", "co_argcount", "co_kwonlyargcount", "co_posonlyargcount", "__defaults__", "__kwdefaults__", "getfullargspec", "getargspec", "getargs", "getcallargs")
+    stray = [n for n in ast.walk(f) if isinstance(n, ast.Attribute) and n.attr in BYPASS]
+    ctx.check(not stray, stray[0] if stray else f, "filter_args takes parameter names, kinds and defaults from inspect.signature only",
+              "filter_args reads `%s`: parameter information taken from the code object / argspec does not follow __wrapped__ / __signature__ as Python's own binding "
+              "(inspect.signature) does - for a decorated method the instance lands under the wrapper's first local name" % (unparse(stray[0], 60) if stray else ""))
     m = ctx.repo.mod(FI)
     for st in m.tree.body:
         if isinstance(st, ast.Assign) and isinstance(st.value, (ast.Dict,)) and not st.value.keys:
